@@ -1,9 +1,9 @@
 (* Proofs of the parse engine (C03).
 
-   1. Every panic the glue model can produce is one of the committed known panic sites
-      (`parse_glue_panics_known`, `parse_comp_glue_panics_known`), for every abstract input, no size bound.
-   2. Each known site is reproduced by the model on a concrete abstract input (`site_9xx_reached`); the inputs are
-      the abstractions of the byte strings listed as witnesses in known_findings.json / harness `witnesses()`.
+   1. The glue model never panics (`parse_glue_never_panics`, `parse_comp_glue_never_panics`), for every abstract
+      input, no size bound; stated through the (now empty) committed table of known panic sites.
+   2. The former witnesses of D09a..D09l -- abstractions of the byte strings listed in known_findings.json / harness
+      `witnesses()` -- are parsed (optional metadata) or rejected with Err.
    3. The inventory obligations (by vm_compute over the *generated* Gen/GenInventory.v): the hand-written status
       table Model/PanicSites.v lists exactly the generated sites, none of them is `Unknown`, and the classes it
       marks `Reachable` are exactly `known_panic_sites`.
@@ -18,16 +18,14 @@ Import ListNotations.
 Local Open Scope N_scope.
 
 (* ---------------------------------------------------------------------------------------------- *)
-(* 1. the model only panics at known sites *)
+(* 1. the model never panics (the table of known sites is empty) *)
 
 Definition known_out (o : outcome) : Prop := match o with OPanic k => In k known_panic_sites | _ => True end.
-
-Ltac known_site := cbn [known_out]; unfold known_panic_sites; cbn [In]; tauto.
 
 Lemma eval_ops_known : forall ops t, known_out (eval_ops ops t).
 Proof.
   induction ops as [|x r IH]; intro t; cbn [eval_ops]; [exact I|].
-  destruct x; try apply IH; try exact I; [destruct t; exact I | known_site].
+  destruct x; try apply IH; try exact I. destruct t; exact I.
 Qed.
 Lemma eval_cexpr_known : forall e, known_out (eval_cexpr e).
 Proof. intro e; apply eval_ops_known. Qed.
@@ -48,30 +46,24 @@ Proof.
     destruct (run_data r); exact IH.
 Qed.
 Lemma run_tags_known : forall l, known_out (run_tags l).
-Proof. induction l as [|x r IH]; cbn [run_tags]; [exact I|]. destruct x; [exact IH | known_site]. Qed.
-Lemma run_fnames_known : forall st l, known_out (run_fnames st l).
-Proof.
-  intros st; induction l as [|x r IH]; cbn [run_fnames]; [exact I|].
-  destruct x as [|i]; [exact I|].
-  destruct (i <? ms_nimpf st); [exact IH|]. destruct (i - ms_nimpf st <? ms_ncode st); [exact IH | known_site].
-Qed.
+Proof. induction l as [|x r IH]; cbn [run_tags]; [exact I|]. destruct x; [exact IH | exact I]. Qed.
+Lemma run_fnames_known : forall l, known_out (run_fnames l).
+Proof. induction l as [|x r IH]; cbn [run_fnames]; [exact I|]. destruct x; [exact I | exact IH]. Qed.
 Lemma run_indirect_known : forall l, known_out (run_indirect l).
 Proof.
   induction l as [|x r IH]; cbn [run_indirect]; [exact I|].
-  destruct x as [|[|]]; [known_site | exact IH | known_site].
+  destruct x as [|[|]]; [exact I | exact IH | exact I].
 Qed.
-Lemma run_name_known : forall st l, known_out (run_name st l).
+Lemma run_name_known : forall l, known_out (run_name l).
 Proof.
-  intros st; induction l as [|x r IH]; cbn [run_name]; [exact I|].
+  induction l as [|x r IH]; cbn [run_name]; [exact I|].
   destruct x as [|f|ok|i|].
   - exact I.
-  - pose proof (run_fnames_known st f) as H. destruct (run_fnames st f); auto.
-  - destruct ok; [exact IH | known_site].
+  - pose proof (run_fnames_known f) as H. destruct (run_fnames f); auto.
+  - destruct ok; [exact IH | exact I].
   - pose proof (run_indirect_known i) as H. destruct (run_indirect i); auto.
   - exact IH.
 Qed.
-Lemma run_producers_known : forall p, known_out (run_producers p).
-Proof. destruct p as [| |[|]]; cbn [run_producers]; try exact I; known_site. Qed.
 
 Lemma step_known : forall mm st e o, step mm st e = inr o -> known_out o.
 Proof.
@@ -93,8 +85,8 @@ Proof.
     destruct (negb last_end); [inversion H; exact I|].
     destruct (negb mm && nzmem); inversion H; exact I.
   - pose proof (run_tags_known l) as K. destruct (run_tags l); inversion H; subst; auto.
-  - pose proof (run_name_known st l) as K. destruct (run_name st l); inversion H; subst; auto.
-  - pose proof (run_producers_known p) as K. destruct (run_producers p); inversion H; subst; auto.
+  - pose proof (run_name_known l) as K. destruct (run_name l); inversion H; subst; auto.
+  - cbn [run_producers] in H. inversion H.
   - inversion H.
   - inversion H; exact I.
   - inversion H.
@@ -105,7 +97,7 @@ Lemma check_func_types_known : forall types n funcs, known_out (check_func_types
 Proof.
   intros types; induction n as [|n IH]; intros funcs; cbn [check_func_types]; [exact I|].
   destruct funcs as [|t r]; [exact I|].
-  destruct (nth_error types (N.to_nat t)) as [[|]|]; [apply IH | known_site | known_site].
+  destruct (nth_error types (N.to_nat t)) as [[|]|]; [apply IH | exact I | exact I].
 Qed.
 Lemma finish_known : forall st, known_out (finish st).
 Proof.
@@ -122,17 +114,21 @@ Qed.
 Theorem parse_glue_panics_known : forall mm s k, parse_glue mm s = OPanic k -> In k known_panic_sites.
 Proof. intros mm s k H. pose proof (scan_known mm s ms0) as K. unfold parse_glue in H. rewrite H in K. exact K. Qed.
 
+(* the table is empty: the model of Module::parse never panics *)
+Theorem parse_glue_never_panics : forall mm s k, parse_glue mm s <> OPanic k.
+Proof. intros mm s k H. exact (parse_glue_panics_known mm s k H). Qed.
+
 Lemma run_cname_known : forall l, known_out (run_cname l).
 Proof.
   induction l as [|x r IH]; cbn [run_cname]; [exact I|].
-  destruct x as [|[|]|]; [exact I | exact IH | known_site | exact IH].
+  destruct x as [|[|]|]; [exact I | exact IH | exact I | exact IH].
 Qed.
 Lemma cstep_known : forall mm e, known_out (cstep mm e).
 Proof.
   intros mm e; destruct e; cbn [cstep]; try exact I.
   - destruct ok; exact I.
-  - destruct slice_ok; [apply scan_known | known_site].
-  - destruct slice_ok; [exact I | known_site].
+  - destruct slice_ok; [apply scan_known | exact I].
+  - destruct slice_ok; exact I.
   - apply run_cname_known.
 Qed.
 Theorem parse_comp_glue_panics_known : forall mm s k, parse_comp_glue mm s = OPanic k -> In k known_panic_sites.
@@ -142,14 +138,16 @@ Proof.
   - exact (IH k H).
   - inversion H; subst. exact K.
 Qed.
+Theorem parse_comp_glue_never_panics : forall mm s k, parse_comp_glue mm s <> OPanic k.
+Proof. intros mm s k H. exact (parse_comp_glue_panics_known mm s k H). Qed.
 
 (* ---------------------------------------------------------------------------------------------- *)
-(* 2. every known site is reached: abstractions of the committed witnesses *)
+(* 2. the former witnesses of D09a..D09l: the inputs that used to panic are now parsed or rejected with Err *)
 
 (* (module (type (func)) (func (type 0))) with the name section (function 0 named) *before* the code section -- a valid module *)
 Definition w_name_before_code : list mev :=
   [MVersion 1; MTypes [true] true; MFuncs [0] true; MName [NSFunc [NIdx 0]]; MCodeStart 1; MCodeEntry true true true false; MIgnored].
-(* the same module with the name section last: parsed *)
+(* the same module with the name section last *)
 Definition w_name_after_code : list mev :=
   [MVersion 1; MTypes [true] true; MFuncs [0] true; MCodeStart 1; MCodeEntry true true true false; MName [NSFunc [NIdx 0]]; MIgnored].
 (* name section last, but it names function 5 of a module with one function -- still a valid module *)
@@ -180,42 +178,29 @@ Definition w_comp_namemap : list cev := [CSkip; CName [CSMap false; CSErr]; CSki
 (* component header followed by a core module section that announces 20 bytes when 8 are left *)
 Definition w_comp_slice : list cev := [CSkip; CModule false []].
 
-Example site_901_reached : parse_glue false w_name_before_code = OPanic 901. Proof. vm_compute; reflexivity. Qed.
-Example site_901_reached' : parse_glue false w_name_index_past_end = OPanic 901. Proof. vm_compute; reflexivity. Qed.
+Example name_before_code_parses : parse_glue false w_name_before_code = OOk. Proof. vm_compute; reflexivity. Qed.
+Example name_index_past_end_parses : parse_glue false w_name_index_past_end = OOk. Proof. vm_compute; reflexivity. Qed.
 Example name_after_code_parses : parse_glue false w_name_after_code = OOk. Proof. vm_compute; reflexivity. Qed.
-Example site_902_reached : parse_glue false w_producers_empty = OPanic 902. Proof. vm_compute; reflexivity. Qed.
-Example site_903_reached : parse_glue false w_producers_badfield = OPanic 903. Proof. vm_compute; reflexivity. Qed.
-Example site_904_reached : parse_glue false w_producers_badvalue = OPanic 904. Proof. vm_compute; reflexivity. Qed.
-Example site_905_reached : parse_glue false w_tag_attribute = OPanic 905. Proof. vm_compute; reflexivity. Qed.
-Example site_906_reached : parse_glue false w_extended_const = OPanic 906. Proof. vm_compute; reflexivity. Qed.
-Example site_907_reached : parse_glue false w_func_type_missing = OPanic 907. Proof. vm_compute; reflexivity. Qed.
-Example site_908_reached : parse_glue false w_func_type_array = OPanic 908. Proof. vm_compute; reflexivity. Qed.
-Example site_909_reached : parse_glue false w_namemap = OPanic 909. Proof. vm_compute; reflexivity. Qed.
-Example site_910_reached : parse_glue false w_indirect_namemap = OPanic 910. Proof. vm_compute; reflexivity. Qed.
-Example site_911_reached : parse_comp_glue false w_comp_namemap = OPanic 911. Proof. vm_compute; reflexivity. Qed.
-Example site_912_reached : parse_comp_glue false w_comp_slice = OPanic 912. Proof. vm_compute; reflexivity. Qed.
-(* a nested module panics inside a component as well *)
-Example site_902_reached_nested : parse_comp_glue false [CSkip; CModule true w_producers_empty; CSkip] = OPanic 902.
+Example producers_empty_parses : parse_glue false w_producers_empty = OOk. Proof. vm_compute; reflexivity. Qed.
+Example producers_badfield_parses : parse_glue false w_producers_badfield = OOk. Proof. vm_compute; reflexivity. Qed.
+Example producers_badvalue_parses : parse_glue false w_producers_badvalue = OOk. Proof. vm_compute; reflexivity. Qed.
+Example tag_attribute_rejected : parse_glue false w_tag_attribute = OErr. Proof. vm_compute; reflexivity. Qed.
+Example extended_const_rejected : parse_glue false w_extended_const = OErr. Proof. vm_compute; reflexivity. Qed.
+Example func_type_missing_rejected : parse_glue false w_func_type_missing = OErr. Proof. vm_compute; reflexivity. Qed.
+Example func_type_array_rejected : parse_glue false w_func_type_array = OErr. Proof. vm_compute; reflexivity. Qed.
+Example namemap_rejected : parse_glue false w_namemap = OErr. Proof. vm_compute; reflexivity. Qed.
+Example indirect_namemap_rejected : parse_glue false w_indirect_namemap = OErr. Proof. vm_compute; reflexivity. Qed.
+Example comp_namemap_rejected : parse_comp_glue false w_comp_namemap = OErr. Proof. vm_compute; reflexivity. Qed.
+Example comp_slice_rejected : parse_comp_glue false w_comp_slice = OErr. Proof. vm_compute; reflexivity. Qed.
+(* a nested module with an empty producers section is parsed inside a component as well *)
+Example producers_empty_nested_parses : parse_comp_glue false [CSkip; CModule true w_producers_empty; CSkip] = OOk.
 Proof. vm_compute; reflexivity. Qed.
 
+
+(* kept for the table-driven formulation: every listed site is reached by some input (vacuous while the table is empty) *)
 Theorem every_known_site_reached : forall k, In k known_panic_sites ->
   (exists mm s, parse_glue mm s = OPanic k) \/ (exists mm s, parse_comp_glue mm s = OPanic k).
-Proof.
-  intros k H. unfold known_panic_sites in H. cbn [In] in H.
-  repeat (destruct H as [H|H]; [subst k|]); try contradiction.
-  - left; exists false, w_name_before_code; exact site_901_reached.
-  - left; exists false, w_producers_empty; exact site_902_reached.
-  - left; exists false, w_producers_badfield; exact site_903_reached.
-  - left; exists false, w_producers_badvalue; exact site_904_reached.
-  - left; exists false, w_tag_attribute; exact site_905_reached.
-  - left; exists false, w_extended_const; exact site_906_reached.
-  - left; exists false, w_func_type_missing; exact site_907_reached.
-  - left; exists false, w_func_type_array; exact site_908_reached.
-  - left; exists false, w_namemap; exact site_909_reached.
-  - left; exists false, w_indirect_namemap; exact site_910_reached.
-  - right; exists false, w_comp_namemap; exact site_911_reached.
-  - right; exists false, w_comp_slice; exact site_912_reached.
-Qed.
+Proof. intros k H. destruct H. Qed.
 
 (* ---------------------------------------------------------------------------------------------- *)
 (* 3. inventory coverage *)
